@@ -17,11 +17,11 @@ func init() {
 		"(R1) for every `go` statement of the repository, every variable captured by (or pointer handed to) the goroutine that is written by the goroutine, "+
 		"by another instance of the same `go` statement (statement in a loop, variable allocated outside it) or by the spawner before a WaitGroup barrier, "+
 		"is accessed on both sides under one common sync.Mutex/RWMutex that is itself shared, or only at the per-instance range index; a WaitGroup.Wait counts as a barrier only if the goroutine "+
-		"defers Done on the same WaitGroup (or calls it on every path), never calls Add on it, and the spawner's Add dominates the `go`; writes inside repository callees that receive the shared pointer are included; "+
+		"defers Done on the same WaitGroup (or calls it on every path), never calls Add on it, and the spawner's Add dominates the `go`; writes inside repository callees that receive the shared pointer, and inside closures the spawner hands to the goroutine as function values, are included; "+
 		"(R2) code reachable from the four Reconcile methods never writes a package-level variable or a reconciler field, and hands reconciler fields / package variables only to types on a short allow-list "+
 		"(controller-runtime client, Scheme, logr, EventRecorder, Prometheus vectors, the apimachinery equality table, flowcontrol.Backoff); for flowcontrol.Backoff each method used is shown from its SSA to take the object's RWMutex before touching it and its Clock field is shown to be assigned only at construction; "+
-		"(R3) every API write issued inside a goroutine of the replica-set reconciler has its error collected on every path where it is non-nil (channel send or store into a captured slice), "+
-		"the spawning helper returns exactly the collected errors (exhaustive range over the channel, or the captured slice), and in every caller the returned errors reach, on every path, "+
+		"(R3) every API write issued inside a goroutine of the replica-set reconciler (closure or named function) has its error collected on every path where it is non-nil — a send on the helper's channel or a store into the helper's slice, reached through a captured variable, a parameter, a repository callee or a closure handed in by the helper that does so on every path — "+
+		"the spawning helper returns exactly the collected errors (exhaustive range over the channel, itself or in a repository function whose result it returns, or the captured slice), and in every caller the returned errors reach, on every path, "+
 		"the ReconcileError condition writer, a PodsCleanupDone=False condition write, or a returned error that is followed further up to the replica-set Reconcile; "+
 		"and the status object such a condition is written on is, by provenance, the one that is persisted: the very value handed to the function doing Status().Update, or the NewStatus of (or the value stored into the NewStatus of) the *Result the planner returns, followed through the dispatcher to the Reconcile, which hands that NewStatus to the status update on every path.", runC17)
 }
@@ -383,11 +383,40 @@ func c17RaceAt(r *Run, ws *dWriteSummary, spawner *ssa.Function, g *ssa.Go) {
 	}
 
 	var undecided []string
+	// closures made by the spawner and handed to the goroutine as function values: what they do to the
+	// variables they capture is done by the goroutine
+	extraFV := map[*ssa.FreeVar]bool{}
+	var argClosures []*ssa.Function
+	if !g.Call.IsInvoke() {
+		for _, a := range g.Call.Args {
+			v := a
+			if al, ok := v.(*ssa.Alloc); ok {
+				if cv := dCellValue(al); cv != nil {
+					v = cv
+				}
+			}
+			m, ok := v.(*ssa.MakeClosure)
+			if !ok {
+				continue
+			}
+			f2, ok := m.Fn.(*ssa.Function)
+			if !ok {
+				continue
+			}
+			argClosures = append(argClosures, f2)
+			for i, fv := range f2.FreeVars {
+				if i < len(m.Bindings) {
+					extraFV[fv] = true
+					binding[fv] = m.Bindings[i]
+				}
+			}
+		}
+	}
 	// goroutine side
 	gNamer := func(c dChain) (string, int, bool) {
 		switch x := c.Root.(type) {
 		case *ssa.FreeVar:
-			if x.Parent() == callee {
+			if x.Parent() == callee || extraFV[x] {
 				return "var " + x.Name(), c.Loads, true
 			}
 		case *ssa.Parameter:
@@ -449,6 +478,19 @@ func c17RaceAt(r *Run, ws *dWriteSummary, spawner *ssa.Function, g *ssa.Go) {
 					case "Add":
 						wg[m].add = true
 					}
+				}
+			}
+		}
+	}
+
+	for _, f2 := range argClosures {
+		held2 := c17Held(f2, gMutex)
+		for _, b := range f2.Blocks {
+			for _, ins := range b.Instrs {
+				for _, a := range c17InstrAccesses(r, ins, gNamer, ws, &undecided) {
+					a.held = held2[ins]
+					a.inG = true
+					acc = append(acc, a)
 				}
 			}
 		}
@@ -1048,6 +1090,244 @@ func c17IsErrType(t types.Type) bool {
 	return false
 }
 
+// c17Col is one place where an error value is handed over to the spawning helper: a channel send,
+// a store into a slice variable, or a call (of a repository function, or of a closure the helper
+// passed in) that does one of these with its argument on every path.
+type c17Col struct {
+	instr ssa.Instruction
+	cont  ssa.Value // the helper-level root of the container (variable cell or make(chan))
+	kind  string    // "chan" | "slice"
+	name  string
+}
+
+// c17Env maps a free variable or parameter of a function running on behalf of the helper to the
+// helper-level value it stands for (nil if unknown).
+type c17Env func(v ssa.Value) ssa.Value
+
+// c17ContRoot is the single root a container value is reached from (nil if ambiguous).
+func c17ContRoot(v ssa.Value) ssa.Value {
+	if v == nil {
+		return nil
+	}
+	var root ssa.Value
+	for _, c := range dChains(v, true) {
+		if len(c.Path) != 0 {
+			return nil
+		}
+		if root != nil && root != c.Root {
+			return nil
+		}
+		root = c.Root
+	}
+	// a channel variable assigned once (e.g. a parameter captured by the closer goroutine) stands for that value
+	if a, ok := root.(*ssa.Alloc); ok {
+		if pt, ok := a.Type().(*types.Pointer); ok {
+			if _, isCh := pt.Elem().Underlying().(*types.Chan); isCh {
+				if v0 := dCellValue(a); v0 != nil && v0 != v {
+					if r2 := c17ContRoot(v0); r2 != nil {
+						return r2
+					}
+				}
+			}
+		}
+	}
+	return root
+}
+
+func c17RootName(v ssa.Value) string {
+	switch x := v.(type) {
+	case *ssa.Alloc:
+		return x.Comment
+	case *ssa.Parameter:
+		return x.Name()
+	case *ssa.FreeVar:
+		return x.Name()
+	}
+	return "error container"
+}
+
+// c17FindCollectors lists the collectors of the error value accepted by isErr inside fn.
+func c17FindCollectors(r *Run, fn *ssa.Function, isErr func(ssa.Value) bool, env c17Env, depth int) []c17Col {
+	var cols []c17Col
+	if fn == nil || depth > 3 {
+		return nil
+	}
+	// the helper-level value behind a value of fn that is (a load of) a free variable or a parameter
+	lift := func(v ssa.Value) ssa.Value {
+		var out ssa.Value
+		for _, c := range dChains(v, false) {
+			if len(c.Path) != 0 || c.Loads > 1 {
+				return nil
+			}
+			switch c.Root.(type) {
+			case *ssa.FreeVar, *ssa.Parameter:
+				h := env(c.Root)
+				if h == nil || (out != nil && out != h) {
+					return nil
+				}
+				out = h
+			default:
+				return nil
+			}
+		}
+		return out
+	}
+	for _, b := range fn.Blocks {
+		for _, ins := range b.Instrs {
+			switch x := ins.(type) {
+			case *ssa.Send:
+				if isErr(x.X) {
+					if h := lift(x.Chan); h != nil {
+						if root := c17ContRoot(h); root != nil {
+							cols = append(cols, c17Col{ins, root, "chan", c17RootName(root)})
+						}
+					}
+				}
+			case *ssa.Store:
+				// *v = append(*v, err)  or  (*v)[i] = err, v a captured variable or a pointer parameter
+				var h ssa.Value
+				for _, c := range dChains(x.Addr, false) {
+					switch c.Root.(type) {
+					case *ssa.FreeVar, *ssa.Parameter:
+						if (c.Loads == 0 && len(c.Path) == 0 && anyOrigin(x.Val, isErr)) || (c.Loads == 1 && isErr(x.Val)) {
+							h = env(c.Root)
+						}
+					}
+				}
+				if h != nil {
+					if root := c17ContRoot(h); root != nil {
+						cols = append(cols, c17Col{ins, root, "slice", c17RootName(root)})
+					}
+				}
+			case *ssa.Call:
+				if dBuiltin(&x.Call) != "" || x.Call.IsInvoke() {
+					continue
+				}
+				j := -1
+				for k, a := range x.Call.Args {
+					if isErr(a) {
+						j = k
+					}
+				}
+				if j < 0 {
+					continue
+				}
+				var target *ssa.Function
+				var env2 c17Env
+				args := x.Call.Args
+				if callee := staticCallee(&x.Call); callee != nil {
+					if !r.Prog.IsRepoFunc(callee) {
+						continue
+					}
+					target = callee
+					var mc *ssa.MakeClosure
+					if m, ok := x.Call.Value.(*ssa.MakeClosure); ok {
+						mc = m
+					}
+					env2 = func(v ssa.Value) ssa.Value {
+						switch y := v.(type) {
+						case *ssa.Parameter:
+							if i := paramIndex(y); i >= 0 && i < len(args) {
+								return lift(args[i])
+							}
+						case *ssa.FreeVar:
+							if mc != nil {
+								for i, fv := range callee.FreeVars {
+									if fv == y && i < len(mc.Bindings) {
+										return lift(mc.Bindings[i])
+									}
+								}
+							}
+						}
+						return nil
+					}
+				} else {
+					// a function value handed in by the helper: a closure made there
+					h := lift(x.Call.Value)
+					if a, ok := h.(*ssa.Alloc); ok {
+						h = dCellValue(a)
+					}
+					m, ok := h.(*ssa.MakeClosure)
+					if !ok {
+						continue
+					}
+					f2, _ := m.Fn.(*ssa.Function)
+					if f2 == nil {
+						continue
+					}
+					target = f2
+					env2 = func(v ssa.Value) ssa.Value {
+						switch y := v.(type) {
+						case *ssa.FreeVar:
+							for i, fv := range f2.FreeVars {
+								if fv == y && i < len(m.Bindings) {
+									return m.Bindings[i] // already a helper-level value
+								}
+							}
+						case *ssa.Parameter:
+							if i := paramIndex(y); i >= 0 && i < len(args) {
+								return lift(args[i])
+							}
+						}
+						return nil
+					}
+				}
+				if len(target.Blocks) == 0 || j >= len(target.Params) {
+					continue
+				}
+				p2 := target.Params[j]
+				isErr2 := func(v ssa.Value) bool { return unwrap(v) == ssa.Value(p2) }
+				sub := c17FindCollectors(r, target, isErr2, env2, depth+1)
+				if len(sub) == 0 {
+					continue
+				}
+				if ok, _, used := c17AlwaysCollected(r, target, target.Blocks[0], nil, isErr2, sub); ok && used != nil {
+					cols = append(cols, c17Col{ins, used.cont, used.kind, used.name})
+				}
+			}
+		}
+	}
+	return cols
+}
+
+// c17AlwaysCollected: on every path from `after` (or the start of block `from`) to a return on
+// which the error is not known to be nil, one of the collectors is executed; all collectors used
+// feed one container.
+func c17AlwaysCollected(r *Run, fn *ssa.Function, from *ssa.BasicBlock, after ssa.Instruction, isErr func(ssa.Value) bool, cols []c17Col) (bool, string, *c17Col) {
+	k := newKeyer(fn)
+	paths, okp := enumPaths(fn, k, from, func(b *ssa.BasicBlock) bool { return isReturnBlock(b) }, nil, 5000)
+	r.paths += len(paths)
+	if !okp {
+		return false, "path cap exceeded", nil
+	}
+	var used *c17Col
+	lost := ""
+	for _, p := range paths {
+		if p.Has(true, func(v ssa.Value, _ string) bool { return isNilCompareOf(v, isErr) }) {
+			continue
+		}
+		found := false
+		for i := range cols {
+			c := &cols[i]
+			if !p.Contains(c.instr.Block()) {
+				continue
+			}
+			if after != nil && c.instr.Block() == from && dInstrIndex(c.instr) < dInstrIndex(after) {
+				continue
+			}
+			found = true
+			if used != nil && (used.cont != c.cont || used.kind != c.kind) {
+				return false, "the error is collected into different containers on different paths", nil
+			}
+			used = c
+		}
+		if !found {
+			lost = "on the path [" + shortFacts(p) + "] the error is neither sent to the helper's channel nor stored into the helper's slice (directly, or by a callee / closure that always does so)"
+		}
+	}
+	return lost == "" && used != nil, lost, used
+}
+
 // c17Collected checks steps 1 and 2 for one API write inside a goroutine body: the error is
 // collected on every path where it is non-nil, and the spawning helper returns the collection.
 func c17Collected(r *Run, helper, body *ssa.Function, g *ssa.Go, e *Effect) bool {
@@ -1061,108 +1341,46 @@ func c17Collected(r *Run, helper, body *ssa.Function, g *ssa.Go, e *Effect) bool
 	}
 	var errv ssa.Value = call
 	isErr := func(v ssa.Value) bool { return unwrap(v) == errv }
-	// collectors
-	type collector struct {
-		instr ssa.Instruction
-		fv    *ssa.FreeVar
-		kind  string
-	}
-	var cols []collector
-	fvRoot := func(v ssa.Value, wantLoads int) *ssa.FreeVar {
-		for _, c := range dChains(v, false) {
-			if fv, ok := c.Root.(*ssa.FreeVar); ok && (wantLoads < 0 || c.Loads == wantLoads) {
-				return fv
+	mc, _ := g.Call.Value.(*ssa.MakeClosure)
+	env := func(v ssa.Value) ssa.Value {
+		switch y := v.(type) {
+		case *ssa.FreeVar:
+			if mc != nil {
+				for i, fv := range body.FreeVars {
+					if fv == y && i < len(mc.Bindings) {
+						return mc.Bindings[i]
+					}
+				}
+			}
+		case *ssa.Parameter:
+			if i := paramIndex(y); i >= 0 && !g.Call.IsInvoke() && i < len(g.Call.Args) && y.Parent() == body {
+				return g.Call.Args[i]
 			}
 		}
 		return nil
 	}
-	for _, b := range body.Blocks {
-		for _, ins := range b.Instrs {
-			switch x := ins.(type) {
-			case *ssa.Send:
-				if isErr(x.X) {
-					if fv := fvRoot(x.Chan, 1); fv != nil {
-						cols = append(cols, collector{ins, fv, "chan"})
-					}
-				}
-			case *ssa.Store:
-				if fv := fvRoot(x.Addr, 0); fv != nil && x.Addr == ssa.Value(fv) {
-					if anyOrigin(x.Val, isErr) {
-						cols = append(cols, collector{ins, fv, "slice"})
-					}
-				} else if fv := fvRoot(x.Addr, 1); fv != nil && isErr(x.Val) {
-					cols = append(cols, collector{ins, fv, "slice"})
-				}
-			}
-		}
-	}
-	k := newKeyer(body)
-	paths, okp := enumPaths(body, k, call.Block(), func(b *ssa.BasicBlock) bool { return isReturnBlock(b) }, nil, 5000)
-	r.paths += len(paths)
-	if !okp {
-		r.Undecided("C17.R3", construct, pos, hf, "path cap exceeded")
+	cols := c17FindCollectors(r, body, isErr, env, 0)
+	okc, lost, used := c17AlwaysCollected(r, body, call.Block(), call, isErr, cols)
+	r.Check("C17.R3", construct+" collected", pos, hf, "a non-nil error of an API write in a goroutine is handed to the spawner (channel send / slice variable of the helper) on every path", okc, lost)
+	if !okc || used == nil {
 		return false
-	}
-	var usedFV *ssa.FreeVar
-	kind := ""
-	lost := ""
-	for _, p := range paths {
-		if p.Has(true, func(v ssa.Value, _ string) bool { return isNilCompareOf(v, isErr) }) {
-			continue
-		}
-		found := false
-		for _, c := range cols {
-			if !p.Contains(c.instr.Block()) {
-				continue
-			}
-			if c.instr.Block() == call.Block() && dInstrIndex(c.instr) < dInstrIndex(call) {
-				continue
-			}
-			found = true
-			usedFV, kind = c.fv, c.kind
-		}
-		if !found {
-			lost = "on the path [" + shortFacts(p) + "] the error is neither sent to a captured channel nor stored into a captured slice"
-		}
-	}
-	r.Check("C17.R3", construct+" collected", pos, hf, "a non-nil error of an API write in a goroutine is handed to the spawner (channel send / captured slice) on every path", lost == "" && usedFV != nil, lost)
-	if lost != "" || usedFV == nil {
-		return false
-	}
-	// all collectors of this error use one container
-	for _, c := range cols {
-		if c.fv != usedFV {
-			r.Undecided("C17.R3", construct+" collected", pos, hf, "the error is collected into different containers on different paths")
-			return false
-		}
 	}
 	// step 2: the helper returns the collection
-	mc, _ := g.Call.Value.(*ssa.MakeClosure)
-	var cell ssa.Value
-	if mc != nil {
-		for i, fv := range body.FreeVars {
-			if fv == usedFV && i < len(mc.Bindings) {
-				cell = mc.Bindings[i]
-			}
-		}
-	}
-	if cell == nil {
-		r.Undecided("C17.R3", construct+" returned", pos, hf, "cannot find the spawner's variable behind the captured "+usedFV.Name())
-		return false
-	}
 	ok2, why := false, ""
-	if kind == "chan" {
-		ok2, why = c17ChanDrained(helper, cell)
+	if used.kind == "chan" {
+		ok2, why = c17ChanDrained(r, helper, func(v ssa.Value) bool { return c17ContRoot(v) == used.cont }, 0)
 	} else {
-		ok2, why = c17SliceReturned(helper, cell)
+		ok2, why = c17SliceReturned(helper, used.cont)
 	}
-	r.Check("C17.R3", construct+" returned", r.Prog.Pos(helper.Pos()), hf, "the helper returns every collected error ("+kind+" "+usedFV.Name()+")", ok2, why)
+	r.Check("C17.R3", construct+" returned", r.Prog.Pos(helper.Pos()), hf, "the helper returns every collected error ("+used.kind+" "+used.name+")", ok2, why)
 	return ok2
 }
 
-// c17ChanDrained: the helper receives from the channel in a loop that ends only when the channel is
-// closed, and every return value derives from the received values.
-func c17ChanDrained(helper *ssa.Function, cell ssa.Value) (bool, string) {
+// c17ChanDrained: fn receives from the channel accepted by isChan in a loop that ends only when the
+// channel is closed, and every return value derives from the received values — or fn returns the
+// result of a repository function to which it hands the channel and which does so.
+func c17ChanDrained(r *Run, fn *ssa.Function, isChan func(ssa.Value) bool, depth int) (bool, string) {
+	helper := fn
 	var recv *ssa.UnOp
 	for _, b := range helper.Blocks {
 		for _, ins := range b.Instrs {
@@ -1170,14 +1388,58 @@ func c17ChanDrained(helper *ssa.Function, cell ssa.Value) (bool, string) {
 			if !ok || u.Op != token.ARROW {
 				continue
 			}
-			for _, c := range dChains(u.X, false) {
-				if c.Root == cell && c.Loads == 1 {
-					recv = u
-				}
+			if isChan(u.X) {
+				recv = u
 			}
 		}
 	}
 	if recv == nil {
+		// drained by a callee whose result is returned
+		if depth < 3 {
+			for _, ci := range callsIn(fn) {
+				c, ok := ci.(*ssa.Call)
+				if !ok {
+					continue
+				}
+				callee := staticCallee(&c.Call)
+				if callee == nil || !r.Prog.IsRepoFunc(callee) || len(callee.Blocks) == 0 {
+					continue
+				}
+				for k, a := range c.Call.Args {
+					if _, isCh := a.Type().Underlying().(*types.Chan); !isCh || !isChan(a) || k >= len(callee.Params) {
+						continue
+					}
+					// every return of fn carries the callee's result
+					all := true
+					for _, rt := range dNormalReturns(fn) {
+						found := false
+						for _, res := range rt.Results {
+							if c17IsErrType(res.Type()) && anyOrigin(res, func(v ssa.Value) bool {
+								if v == ssa.Value(c) {
+									return true
+								}
+								ex, isEx := v.(*ssa.Extract)
+								return isEx && ex.Tuple == ssa.Value(c)
+							}) {
+								found = true
+							}
+						}
+						if !found {
+							all = false
+						}
+					}
+					if !all {
+						continue
+					}
+					pk := callee.Params[k]
+					ok2, why := c17ChanDrained(r, callee, func(v ssa.Value) bool { return c17ContRoot(v) == ssa.Value(pk) }, depth+1)
+					if ok2 {
+						return true, shortFunc(callee) + ": " + why
+					}
+					return false, shortFunc(callee) + ": " + why
+				}
+			}
+		}
 		return false, "the helper never receives from the error channel"
 	}
 	if !recv.CommaOk {
